@@ -13,7 +13,7 @@ def build(ctx):
 def run(ctx):
     exe = build(ctx)["h_sorter"]
     th = ctx.tier == "thorough"
-    ctx.fan(exe, "c06", 40000 if th else 1500, timeout=180)
+    ctx.fan(exe, "c06", 40000 if th else 1500, timeout=40)
     s = ctx.stats
     ctx.assumptions += ["needs the MTBL_VERIF hook (MIN_SORTER_MEMORY 1) so that kilobyte inputs split into many chunks",
                         "spill deadline uses the loosest reading: payload bytes (key+value) buffered since the last observed mkstemp must stay below max_memory; checked after every add when spills are synchronous (no worker threads), "
